@@ -502,7 +502,7 @@ func checkRT(prop, tier string) int {
 			"runs_per_hour":                int(float64(runs) / wall * 3600),
 			"cpu_seconds_in_workers":       cpu,
 			"faults_planned_by_kind":       faults,
-			"probes_fired":                 probes,
+			"faults_and_rare_conditions_actually_hit": probes,
 			"probes_at_zero":               zeroProbes,
 			"counters":                     counters,
 			"distinct_overlap_site_pairs":  len(pairs),
@@ -546,9 +546,9 @@ func clip(s string, n int) string {
 }
 
 var rtProbeNames = map[string][]string{
-	"C09": {"request_delivered_in_segments", "duplicate_delivery"},
-	"C10": {"intermediary_to_default_arm", "intermediary_to_error_arm", "truncation_to_error", "response_truncated"},
-	"C14": {"request_delivered_in_segments", "request_reset_hit", "response_writer_failed", "LogError_called", "server_ctx_cancelled_mid_request", "auth_rejected"},
+	"C09": {"request_delivered_in_segments", "response_delivered_in_segments", "duplicate_delivery"},
+	"C10": {"intermediary_to_default_arm", "intermediary_to_error_arm", "truncation_to_error", "response_truncated", "response_delivered_in_segments", "response_truncation_hit_in_body", "response_truncation_hit_in_head"},
+	"C14": {"request_delivered_in_segments", "request_reset_hit", "response_writer_failed", "LogError_called", "server_ctx_cancelled_mid_request", "server_ctx_cancelled_at_start", "auth_rejected", "raw_response_source_failed_mid_copy", "cors_path"},
 	"C20": {"two_tasks_inside_same_generated_function", "request_delivered_in_segments", "request_reset_hit", "response_writer_failed", "LogError_called", "duplicate_delivery", "intermediary_substitution", "context_cancelled_before_send", "auth_rejected", "cors_path", "response_truncated"},
 }
 
